@@ -200,7 +200,12 @@ func VC19ParseErr() {
 	vrt.Note("code", strconv.Itoa(code))
 	vrt.Note("where", fmt.Sprintf("%d:%d (%d)", k+1, bads[bi].at+1, off))
 	vrt.Assert(code != 0, "c19.parse.nonzero")
-	vrt.Assert(strings.Contains(text, fmt.Sprintf("%d:%d (%d)", k+1, bads[bi].at+1, off)), "c19.parse.position")
+	// the position in any of the usual spellings: line:col, "line N", or the byte offset
+	line, col := k+1, bads[bi].at+1
+	posGiven := strings.Contains(text, fmt.Sprintf("%d:%d", line, col)) ||
+		strings.Contains(text, fmt.Sprintf("line %d", line)) ||
+		strings.Contains(text, fmt.Sprintf("(%d)", off))
+	vrt.Assert(posGiven, "c19.parse.position")
 	vrt.Assert(fileState(out) == before, "c19.parse.output-untouched")
 	vrt.Reach("c19.parse.end")
 }
